@@ -14,7 +14,12 @@
 (*  Mode "pool":  pooling windows with padding (which positions, how many  *)
 (*    real ones).                                                          *)
 (*  Mode "norm":  partition of the elements of a (2,3,4) input into        *)
-(*    statistic groups for reduction axes / feature axes / num_groups.     *)
+(*    statistic groups for reduction axes / feature axes / num_groups /    *)
+(*    group_size.                                                          *)
+(*  Mode "contract": Dense / DenseGeneral / Einsum as label contractions:  *)
+(*    out[o] = sum over the contracted labels of x[l] * kernel[r] + bias,  *)
+(*    the bias having one axis per kernel label that survives in the       *)
+(*    output, placed where that label sits in the output.                  *)
 (***************************************************************************)
 EXTENDS Integers, Sequences, FiniteSets, TLC, Json
 
@@ -80,7 +85,7 @@ PoolLaws == Mode = "pool" => \A o \in 0..(POut(case) - 1) : PWin(case, o) # {} /
 \* normalisation: elements of a (2, 3, 4) array grouped by the statistics they share
 Shape == <<2, 3, 4>>
 AllIx == {<<a, b, c>> : a \in 0..1, b \in 0..2, c \in 0..3}
-NormKinds == {"layer", "rms", "instance", "batch", "group1", "group2", "layer_axes12"}
+NormKinds == {"layer", "rms", "instance", "batch", "group1", "group2", "layer_axes12", "gsize1", "gsize2", "gsize4"}
 NormCases == {[kind |-> k] : k \in NormKinds}
 \* key of the statistic group of an index: elements with equal keys are reduced together
 GroupKey(k, ix) ==
@@ -90,10 +95,60 @@ GroupKey(k, ix) ==
     [] k = "batch"            -> <<ix[3]>>                   \* per feature, over batch and middle axes
     [] k = "group1"           -> <<ix[1]>>                   \* num_groups = 1: all features and positions of one example
     [] k = "group2"           -> <<ix[1], ix[3] \div 2>>     \* num_groups = 2: features {0,1} / {2,3}
+    [] k = "gsize1"           -> <<ix[1], ix[3]>>            \* group_size = 1: four groups of one feature
+    [] k = "gsize2"           -> <<ix[1], ix[3] \div 2>>     \* group_size = 2: two groups of two features
+    [] k = "gsize4"           -> <<ix[1]>>                   \* group_size = 4: one group
 NormLaws == Mode = "norm" => \A ix \in AllIx : \E jx \in AllIx : GroupKey(case.kind, ix) = GroupKey(case.kind, jx)
 
+(***************************************************************************)
+(* contractions                                                            *)
+(***************************************************************************)
+Size(lab) == CASE lab \in {"a", "c", "e"} -> 2 [] OTHER -> 3
+\* l / r / o: labels of the input, the kernel and the output; kind + args say how the layer is constructed
+CCase(kind, l, r, o, axis, batch) == [kind |-> kind, l |-> l, r |-> r, o |-> o, axis |-> axis, batch |-> batch]
+ContractCases == {
+  CCase("einsum", <<"a", "b">>, <<"b", "c">>, <<"a", "c">>, <<>>, <<>>),
+  CCase("einsum", <<"a", "b">>, <<"b", "c">>, <<"c", "a">>, <<>>, <<>>),
+  CCase("einsum", <<"a", "b", "c">>, <<"c", "d">>, <<"a", "d", "b">>, <<>>, <<>>),
+  CCase("einsum", <<"a", "b", "c">>, <<"b", "c", "d">>, <<"a", "d">>, <<>>, <<>>),
+  CCase("einsum", <<"a", "b">>, <<"c", "b">>, <<"a", "c">>, <<>>, <<>>),
+  CCase("einsum", <<"a", "b", "c">>, <<"a", "c", "d">>, <<"a", "b", "d">>, <<>>, <<>>),
+  CCase("einsum", <<"a", "b", "c">>, <<"e", "a", "f", "c">>, <<"b", "f", "e">>, <<>>, <<>>),
+  CCase("einsum", <<"a", "b", "c">>, <<"d", "c">>, <<"d", "a", "b">>, <<>>, <<>>),
+  CCase("dense", <<"a", "b">>, <<"b", "d">>, <<"a", "d">>, <<>>, <<>>),
+  CCase("dense", <<"a", "c", "b">>, <<"b", "d">>, <<"a", "c", "d">>, <<>>, <<>>),
+  CCase("dg", <<"a", "b", "c">>, <<"c", "d", "f">>, <<"a", "b", "d", "f">>, <<-1>>, <<>>),          \* features (d, f)
+  CCase("dg", <<"a", "b", "c">>, <<"b", "c", "d">>, <<"a", "d">>, <<1, 2>>, <<>>),
+  CCase("dg", <<"a", "b", "c">>, <<"b", "d">>, <<"a", "c", "d">>, <<-2>>, <<>>),
+  CCase("dg", <<"a", "b", "c">>, <<"a", "c", "d">>, <<"a", "b", "d">>, <<2>>, <<0>>),               \* batch_dims = (0,)
+  CCase("dg", <<"a", "b", "c">>, <<"a", "b", "d">>, <<"a", "c", "d">>, <<1>>, <<0>>)}
+SeqSet(q) == {q[i] : i \in 1..Len(q)}
+Contracted(c) == (SeqSet(c.l) \cup SeqSet(c.r)) \ SeqSet(c.o)
+AllLabels(c) == SeqSet(c.l) \cup SeqSet(c.r) \cup SeqSet(c.o)
+Assignments(L) == [L -> 0..2]
+ValidAsg(as, L) == \A lab \in L : as[lab] < Size(lab)
+\* integer codes of the elements (the harness fills the arrays with the same codes)
+RECURSIVE Code(_, _, _)
+Code(q, as, i) == IF i > Len(q) THEN 0 ELSE as[q[i]] + 3 * Code(q, as, i + 1)
+XVal(c, as) == 1 + (Code(c.l, as, 1) % 5)
+KVal(c, as) == 1 + (Code(c.r, as, 1) % 4)
+BiasLabels(c) == SelectSeq(c.o, LAMBDA lab : lab \in SeqSet(c.r))
+BVal(c, as) == 10 * (1 + Code(BiasLabels(c), as, 1))
+BiasBroadcast(c) == [i \in 1..Len(c.o) |-> IF c.o[i] \in SeqSet(c.r) THEN Size(c.o[i]) ELSE 1]
+RECURSIVE SumOver(_, _, _)
+SumOver(c, base, S_) ==     \* sum over the assignments of the contracted labels extending `base`
+  IF S_ = {} THEN XVal(c, base) * KVal(c, base)
+  ELSE LET lab == CHOOSE x \in S_ : TRUE IN
+       LET RECURSIVE Acc(_) Acc(v) == IF v = Size(lab) THEN 0 ELSE SumOver(c, [base EXCEPT ![lab] = v], S_ \ {lab}) + Acc(v + 1) IN Acc(0)
+OutVal(c, as) == SumOver(c, as, Contracted(c)) + BVal(c, as)
+OutAsgs(c) == {as \in Assignments(AllLabels(c)) : ValidAsg(as, AllLabels(c)) /\ \A lab \in AllLabels(c) \ SeqSet(c.o) : as[lab] = 0}
+ContractLaws == Mode = "contract" =>
+  /\ Len(BiasBroadcast(case)) = Len(case.o)
+  /\ \A lab \in SeqSet(case.o) : lab \in SeqSet(case.l) \cup SeqSet(case.r)
+  /\ Contracted(case) \subseteq SeqSet(case.l) \cap SeqSet(case.r)                 \* only shared labels are summed away
+
 Init == case \in (CASE Mode = "conv" -> {c \in ConvCases : ConvSensible(c)} [] Mode = "convT" -> TCases
-                    [] Mode = "pool" -> PoolCases [] OTHER -> NormCases)
+                    [] Mode = "pool" -> PoolCases [] Mode = "contract" -> ContractCases [] OTHER -> NormCases)
 Next == UNCHANGED case
 Export ==
   CASE Mode = "conv" -> PrintT(<<"EXPORT", ToJson([cfg |-> case, out |-> OutLen(case), pads |-> Pads(case),
@@ -102,5 +157,7 @@ Export ==
                            idx |-> [o \in 1..TOut(case) |-> [t \in 1..case.K |-> TIdx(case, o - 1, t - 1)]]])>>)
     [] Mode = "pool" -> PrintT(<<"EXPORT", ToJson([cfg |-> case, out |-> POut(case),
                            win |-> [o \in 1..POut(case) |-> PWin(case, o - 1)]])>>)
+    [] Mode = "contract" -> PrintT(<<"EXPORT", ToJson([cfg |-> case, bias_labels |-> BiasLabels(case), bias_broadcast |-> BiasBroadcast(case),
+                           out |-> {<<[i \in 1..Len(case.o) |-> as[case.o[i]]], OutVal(case, as)>> : as \in OutAsgs(case)}])>>)
     [] OTHER -> PrintT(<<"EXPORT", ToJson([kind |-> case.kind, groups |-> {<<ix, GroupKey(case.kind, ix)>> : ix \in AllIx}])>>)
 =============================================================================
